@@ -35,8 +35,8 @@ ASSUMPTIONS = [
     'the fixture GIRs (derived from the system typelibs) are valid include material; the GLib header shim matches GLib 2.74',
     'not asserted (no documented source in the GIR schema or outside the statement\'s list): struct/union size, alignment and '
     'field offsets, enum storage type (C08), vfunc struct_offset, signal class-closure fields, vfunc must-chain-up/override '
-    'flags, FunctionBlob async fields, wraps_vfunc, Header.c_prefix, pointer flag of container types and of types written '
-    'without c:type, is_static of top-level functions and constructors, order of directory entries and of members',
+    'flags, FunctionBlob async fields, wraps_vfunc, Header.c_prefix, pointer flag of container types, of types written '
+    'without c:type and of element types nested below an out/inout parameter, is_static of top-level functions and constructors, order of directory entries and of members',
     'parameters, return values and instance parameters always carry transfer-ownership (girparser.c rejects its absence; the '
     'statement quantifies over documents the compiler accepts); an array never carries both length= and fixed-size= '
     '(ArrayTypeBlob stores them in one union)',
@@ -129,7 +129,11 @@ def _stars(ct):
 
 def exp_type(T, cx, out=False, nested=False, in_out_param=False, depth=0):
     """Expected decoded shape of a type.  `out`: top-level type of an out/inout parameter ("Out
-    parameters implicitly add another level of indirection to the parameter type", ArgBlob)."""
+    parameters implicitly add another level of indirection to the parameter type", ArgBlob).
+    The pointer flag of types NESTED in a container of an out/inout parameter is not asserted: the
+    scanner derives an element's c:type from the container's c:type, which there still carries the
+    out indirection, and girparser.c compensates by dropping one level for every <type> below an
+    out parameter; the c:type convention for such elements is not documented."""
     t = T['t']
     if depth >= 1 and t in ('array', 'list', 'hash'):
         cx.nested = True
@@ -146,9 +150,7 @@ def exp_type(T, cx, out=False, nested=False, in_out_param=False, depth=0):
                 lvl = _stars(ct)
                 if out and lvl > 0:
                     lvl -= 1
-                if nested and in_out_param and _stars(ct) == 1 and cx.known('nested-pointer-in-out-param'):
-                    pass
-                else:
+                if not (nested and in_out_param):
                     e['pointer'] = lvl > 0
             return e
         cx.labels.add('t:iface-alias' if via else ('t:iface-foreign' if not target.startswith(cx.ns + '.') else 't:iface-local'))
@@ -158,7 +160,7 @@ def exp_type(T, cx, out=False, nested=False, in_out_param=False, depth=0):
             lvl = _stars(ct)
             if out and lvl > 0:
                 lvl -= 1
-            if nested and in_out_param and _stars(ct) == 1 and not isptr and cx.known('nested-pointer-in-out-param'):
+            if nested and in_out_param:
                 return e
             e['pointer'] = lvl + (1 if isptr else 0) > 0
         elif isptr:
@@ -221,9 +223,7 @@ def exp_callable(c, cx, kind):
         sig['throws'] = c.get('throws') == '1'
         if c.get('throws') == '1':
             cx.labels.add('throws')
-    skip = r.get('skip') == '1'
-    if not (skip and kind in ('callback', 'vfunc', 'signal') and cx.known('skip-return-dropped')):
-        sig['skip_return'] = skip
+    sig['skip_return'] = r.get('skip') == '1'
     if not (r.get('attrs') and kind in ('callback', 'vfunc') and cx.known('return-annotation-dropped')):
         sig['attrs'] = exp_attrs(r)
     if c.get('instance') is not None:
